@@ -47,6 +47,11 @@ class VLoop(asyncio.BaseEventLoop):
         self.setup = False            # True: deterministic, unrecorded
         self.on_timer = None          # callable() when a timer is fired
         self.time_limit = None        # timers beyond this are not fired
+        # two I/O completions in one selector round: after resolving a
+        # parked point the chooser may resolve a second one in the same
+        # loop iteration (its task is queued right behind the first one,
+        # *before* anything the first one spawns).  Budget per execution.
+        self.multi_budget = 0
 
     # -- BaseEventLoop plumbing -------------------------------------------
     def time(self):
@@ -101,6 +106,18 @@ class VLoop(asyncio.BaseEventLoop):
         if kind == 'point':
             self.parked = [(lb, f) for lb, f in self.parked if f is not obj]
             obj.set_result(None)
+            if self.multi_budget > 0 and self.parked and \
+                    self.chooser is not None and not self.setup:
+                more = [('none', 'no-second-completion', None)] + \
+                    [('point', 'also:' + lb, f) for lb, f in self.parked]
+                j = self.chooser(self, more)
+                self.choices.append((len(more), j, more[j][1]))
+                if j:
+                    self.multi_budget -= 1
+                    f2 = more[j][2]
+                    self.parked = [(lb, f) for lb, f in self.parked
+                                   if f is not f2]
+                    f2.set_result(None)
         else:
             self.timer_fired += 1
             if self.on_timer:
